@@ -197,6 +197,13 @@ def c12(tier, seed):
         for leg in items_leg:
             pick = _choose_histories(list(hists), n_leg, rnd, patterns=["a_b_a", "summary_after_bootstrap"])
             items_leg[leg] += [(w, h["hist"], h["classes"]) for h in pick]
+    # one very large single-state election (more than a thousand gaussian calibration units in one group), the same
+    # gaussian request twice on one client and once more on a fresh one
+    big = dict(cb.world(len(worlds), seed), big=True)
+    big_hist = [{"op": "est", "est": "gaussian", "arg": "A", "sarg": "-", "fresh": False}, {"op": "est", "est": "gaussian", "arg": "A", "sarg": "-", "fresh": False},
+                {"op": "est", "est": "gaussian", "arg": "A", "sarg": "-", "fresh": True}]
+    items_main.append((big, big_hist, [1, 1, 1]))
+    worlds.append(big)
     if not quick:
         run.cov["exhaustive"] = True  # every exported history is executed in the checking process for worlds 0 and 1
     classes = {}
